@@ -795,10 +795,14 @@ def gen_ops(rng, n_ops):
             sel = rng.choice(['self', 'meta'] + (['pre'] if p == 'main' or p[0] == 'c' else ['diff']))
             # raw writes into an options dict, with values of the option's declared type (ill-typed raw values are
             # outside what the object model documents and outside the model of generate_stats)
-            k = rng.choice(['encoding', 'custom', 'indent'])
-            v = {'encoding': rng.choice([{'s': 'utf-8'}, {'s': 'x'}, {'s': 'latin-1'}]), 'custom': rng.choice([{'s': 'x'}, {'i': 3}]),
-                 'indent': rng.choice([{'i': 3}, {'i': 0}])}[k]
+            k = rng.choice(['encoding', 'custom', 'indent', 'encoding', 'indent'])
+            v = {'encoding': rng.choice([{'s': 'utf-8'}, {'s': 'x'}, {'s': 'latin-1'}, None]), 'custom': rng.choice([{'s': 'x'}, {'i': 3}]),
+                 'indent': rng.choice([{'i': 3}, {'i': 0}, None])}[k]
             ops.append(['opt_put', i, p, sel, k, v])
+            if rng.random() < 0.5:
+                ops.append(['to_bytes', i])      # an observer right after a raw write (must not touch the dict)
+                if rng.random() < 0.5:
+                    ops.append(['eq', i, rng.randrange(len(shapes))])
         elif r < 0.86:
             ops.append(['to_bytes', i])
         elif r < 0.96:
@@ -914,23 +918,39 @@ class Attrs(Family):
     def cases(self, tier, rng, prop_id):
         ntrees = 6 if tier == 'quick' else 60
         for i in range(ntrees):
-            base = [['parse', rng.choice(SAMPLE_FILES).hex()]] if rng.random() < 0.5 else \
-                [['new', []], ['add_change', 0, []], ['add_file', 0, 0, [['meta', {'d': {'p': 1}}]]]]
-            for p, names in (('main', ATTRS_MAIN), (['c', 0], ATTRS_CHANGE), (['f', 0, 0], ATTRS_FILE)):
+            if rng.random() < 0.4:
+                base = [['parse', rng.choice(SAMPLE_FILES).hex()]]
+                ci, fi = 0, 0
+            else:
+                # a constructed tree with 1-2 changes and 1-2 files per change, varied metadata / options
+                base = [['new', [['preamble', {'s': rng.choice(['p\n', 'q'])}]] if rng.random() < 0.5 else []]]
+                nch = rng.randint(1, 2)
+                for c_ in range(nch):
+                    base.append(['add_change', 0, [['encoding', {'s': rng.choice(['utf-8', 'latin-1'])}]] if rng.random() < 0.4 else []])
+                    for f_ in range(rng.randint(1, 2)):
+                        base.append(['add_file', 0, c_, [['meta', {'d': {'p': rng.choice([1, 2, 'x']), 'k%d' % f_: [f_]}}]]])
+                ci = rng.randrange(nch)
+                fi = 0
+            for p, names in (('main', ATTRS_MAIN), (['c', ci], ATTRS_CHANGE), (['f', ci, fi], ATTRS_FILE)):
                 for a in names + ['bogus', 'content', 'length', 'meta_content', 'preamble_content', 'diff_content']:
                     for v in CANDIDATES:
                         yield dict(kind='assign', ops=base + [['set', 0, p, a, v], ['to_bytes', 0]])
             for a in ['bogus', 'lenght', 'diff', 'preamble_bogus']:
                 yield dict(kind='ctor', ops=[['new', [[a, {'s': 'x'}]]], ['new', []], ['add_change', 0, [[a, {'s': 'x'}]]]])
             # single-field perturbations: two copies of the same tree, perturb one, compare
-            for p, names in (('main', ATTRS_MAIN), (['c', 0], ATTRS_CHANGE), (['f', 0, 0], ATTRS_FILE)):
+            for p, names in (('main', ATTRS_MAIN), (['c', ci], ATTRS_CHANGE), (['f', ci, fi], ATTRS_FILE)):
                 for a in names:
                     for v in [{'s': 'utf-16'}, {'s': 'dos'}, {'s': 'text/markdown'}, {'s': 'binary'}, {'s': 'changed\n'},
                               {'i': 7}, {'b': '2b780a'}, {'d': {'p': True}}, {'d': {'p': 1, 'q': 2}}]:
                         yield dict(kind='perturb', ops=base + base_shift(base) + [['eq', 0, 1], ['set', 1, p, a, v],
                                                                                   ['eq', 0, 1], ['to_bytes', 0], ['to_bytes', 1]])
+            # shape perturbations: a tree against the same tree with one more change / file at the end (and the reverse)
+            for extra in ([['add_change', 1, []]], [['add_file', 1, ci, []]], [['add_change', 1, []], ['add_file', 1, -1, []]]):
+                extra = [[o[0], o[1], (o[2] if o[2] != -1 else 0)] + o[3:] if o[0] == 'add_file' else o for o in extra]
+                yield dict(kind='perturb-shape', ops=base + base_shift(base) + [['eq', 0, 1]] + extra +
+                           [['eq', 0, 1], ['eq', 1, 0], ['to_bytes', 0], ['to_bytes', 1]])
             for key, v in [('p', True), ('p', 1), ('p', 2), ('z', None)]:
-                yield dict(kind='perturb-meta', ops=base + base_shift(base) + [['meta_put', 1, ['f', 0, 0], key, v], ['eq', 0, 1],
+                yield dict(kind='perturb-meta', ops=base + base_shift(base) + [['meta_put', 1, ['f', ci, fi], key, v], ['eq', 0, 1],
                                                                                ['to_bytes', 0], ['to_bytes', 1]])
 
     _impl = Alias._impl
